@@ -441,6 +441,8 @@ def tryParseTypeHint : P TypeHint := do
   if (← peekGroup .brace) then do enterGroupIgnored .brace; return .struct
   if (← peekGroup .paren) then do enterGroupIgnored .paren; return .tuple
   if (← peekKw "Unit") then do parseKw "Unit"; return .unit
+  -- `input.error(..)`: at the end of the buffer syn prefixes the message
+  if (← isEmpty) then failO2o "unexpected end of input, Only '()', '{}', and 'Unit' are supported type hints."
   failO2o "Only '()', '{}', and 'Unit' are supported type hints."
 
 /-- `peek_container_path` -/
@@ -613,6 +615,28 @@ def parseStructGhostAttrCore : P StructGhostAttrCore := do
   let gd ← parseTerminated (parseGhostData b)
   return { containerTy := c, ghostData := gd }
 
+/-- `TypeParamBound`s separated by `+` (lifetime, `?`-path, path), printed -/
+def parseBoundsF : Nat → TS → P TS
+  | 0, acc => return acc
+  | f + 1, acc => do
+    let ts ← toks
+    if ts.isEmpty || headIsPuncts [','] ts then return acc
+    let bound ← (do
+      if headIsLifetime ts then
+        match ts with
+        | _ :: .ident n :: r => do setToks r; pure [j '\'', Tok.ident n]
+        | _ => failLib
+      else if headIsIdentEq "for" ts || headIsIdentEq "dyn" ts || headIsIdentEq "impl" ts || headIsGroup .paren ts || headIsPuncts ['~'] ts then
+        failUnsup "where bound outside the modelled fragment"
+      else do
+        let q ← (do if (← peekPuncts "?") then do parsePuncts "?"; pure [p '?'] else pure [])
+        let pth ← parsePath b
+        pure (q ++ pth.toTS))
+    if (← peekPuncts "+") then do
+      parsePuncts "+"
+      parseBoundsF f (acc ++ bound ++ [p '+'])
+    else return acc ++ bound
+
 /-- one `WherePredicate` of the modelled fragment, printed -/
 def parseWherePredicate : P TS := do
   let ts ← toks
@@ -624,15 +648,8 @@ def parseWherePredicate : P TS := do
     else if headIsIdentEq "for" ts then failUnsup "higher-ranked where predicate"
     else parseType b)
   parsePuncts ":"
-  -- bounds: everything up to the next top-level comma
-  let rest ← toks
-  match splitTopCommas rest 0 [] [] with
-  | bounds :: _ => do
-    if bounds.any (fun t => match t with | .ident s => s == "for" || s == "dyn" || s == "impl" | .punct '=' _ => true | _ => false) then
-      failUnsup "where bound outside the modelled fragment"
-    setToks (rest.drop bounds.length)
-    return lhs ++ [p ':'] ++ respaceTS bounds
-  | [] => return lhs ++ [p ':']
+  let bounds ← parseBoundsF b ((← toks).length + 1) []
+  return lhs ++ [p ':'] ++ bounds
 
 def joinComma : List TS → TS
   | [] => []
